@@ -149,13 +149,16 @@ class Ptr:
         self.meta = meta
 
     def get(self):
-        return self.base[self.key]
+        try:
+            return self.base[self.key]
+        except KeyError:
+            return None
 
     def set(self, v):
         self.base[self.key] = v
 
     def __repr__(self):
-        return f"&{self.base[self.key]!r}"
+        return f"&{self.get()!r}"
 
 
 class SeqElemPtr:
